@@ -1,15 +1,106 @@
-"""Prints the markdown table of seeded changes (from seeded/*/meta.json) for DESIGN.md."""
-import glob, json, os
+"""Rebuilds Appendix E of DESIGN.md from harness/appendixE.tmpl.md: the per-property table (theorem counts read from
+coq/Properties, claims from MANIFEST.json, known findings from known_findings.json) and the seeded-change table
+(seeded/*/meta.json).  python3 harness/mkdesign_tables.py [--write]"""
+import glob
+import json
+import os
+import re
+import sys
 V = os.path.dirname(os.path.dirname(os.path.abspath(__file__)))
-rows = []
-for d in sorted(glob.glob(os.path.join(V, 'seeded', 'C*-*'))):
-    m = json.load(open(os.path.join(d, 'meta.json')))
-    c = m.get('confirmation', {})
-    tail = ' '.join(c.get('check_tail', [])[-2:]) if c.get('check_tail') else ''
-    how = 'oracle (failing input)' if 'VIOLATION' in tail and 'no-failing-input-found' not in tail else \
-        ('broken correspondence/obligation' if 'VIOLATION' in tail else '')
-    rows.append('| %s | %s | %s | %s |' % (os.path.basename(d), m.get('summary', '').replace('|', '/').replace('\n', ' ')[:150],
-                                        m.get('needs', '').replace('|', '/').replace('\n', ' ')[:150],
-                                        ('caught: ' + how) if c.get('check_rc') == 1 else 'NOT caught' if c.get('check_rc') == 0 else '?'))
-print('| seed | change | needs | quick check of its property |\n|---|---|---|---|')
-print('\n'.join(rows))
+
+CORR = {
+ 'C01': 'Model/Add.v (tables after every add, row for row)', 'C02': 'Model/Lmf.v run_dump (file bytes) and run_load (resource)',
+ 'C03': 'Model/Export.v run_export (exported dictionaries)', 'C04': 'Model/Core.v run_core (full observation battery)',
+ 'C05': 'Model/Add.v run_add / run_remove / run_add_ili (tables after every operation)', 'C06': 'Model/Txn.v (statement trace shape of clean runs)',
+ 'C07': 'Model/Project.v run_project (file trees built as real files)', 'C08': 'Model/Spec.v run_spec (selected rowids / error)',
+ 'C09': 'Model/Core.v run_core (search batteries)', 'C10': 'Model/Core.v run_core (navigation, equality keys, translate)',
+ 'C11': 'Model/Core.v run_core on add-built and table-level databases', 'C12': 'Model/Core.v run_core in expand mode, add-built and table-level',
+ 'C13': 'Model/Taxonomy.v run_taxonomy (all digraphs up to the bound + random)', 'C14': 'Model/SimilarityFloat.v run_similarity (bit-exact floats)',
+ 'C15': 'Model/Ic.v run_ic (exact rationals)', 'C16': '(none: runtime property; theorems reuse C13/C14 models)',
+ 'C17': 'Model/Morphy.v run_morphy', 'C18': 'Model/Validate.v run_validate', 'C19': 'Model/Add.v run_add_ili', 'C20': 'Model/Lmf.v run_load on valid and mutated documents',
+}
+ORACLE = {
+ 'C01': 'expected API content from the document description (expect.py), per lexicon scope and default mode, with churn and interleaved queries',
+ 'C02': 'load(dump(R)) = R and dump(load(F)) reloads equal, on generated resources/files in every version',
+ 'C03': 'export -> load -> add to empty database -> compare observations and the loaded document',
+ 'C04': 'every reported entity/relation/form belongs to the scope; results unchanged by adding/removing unselected lexicons',
+ 'C05': 'final database of a history vs fresh database with the installed lexicons; FK audit after every step',
+ 'C06': 'fault injection at every progress callback, every authorizer call, corrupted references; database dump before = after',
+ 'C07': 'canonical content per supply route vs in-memory route; file hashes / deep copies; orphan extensions; pre-installed packages',
+ 'C08': 'documented selection computed independently from the lexicon list',
+ 'C09': 'documented procedure re-implemented on the document description (own normaliser)',
+ 'C10': 'round trips sense<->word/synset, two-hop navigation, equality/hash across routes, translate via ILI from documents',
+ 'C11': 'declared relations from documents per scope, argument sets, closure/paths against brute-force search',
+ 'C12': 'documented expand construction from documents (ILI sharing, placeholders, default expand set, warning)',
+ 'C13': 'graph-theoretic definitions by brute force (all simple chains, BFS distances)',
+ 'C14': 'documented formulas with exact rationals / correctly rounded floats, symmetry, bounds',
+ 'C15': 'ancestor-closure weights, conservation, monotonicity, ic.load totals',
+ 'C16': 'transcripts byte-identical across PYTHONHASHSEED values, call orders and repeated calls; database unchanged',
+ 'C17': 'direct re-implementation of the documented Morphy behaviour; union over proposals through a lemmatizer-free Wordnet',
+ 'C18': 'fault-injected lexicons with the expected report computed from the injected faults; add rejects E204/E401',
+ 'C19': 'listed/unlisted ILIs per step, idempotence, order independence w.r.t. lexicons',
+ 'C20': 'every mutation rejected by load and add, database unchanged; scan_lexicons = load on accepted documents',
+}
+
+
+def prop_table():
+    man = json.load(open(os.path.join(V, 'MANIFEST.json')))
+    claimed = {c['property_id']: c for c in man['checks']}
+    known = json.load(open(os.path.join(V, 'known_findings.json')))
+    kf = {}
+    for f in known.get('findings', []):
+        kf.setdefault(f['property'], []).append(f['id'])
+    seeds = {}
+    for d in sorted(glob.glob(os.path.join(V, 'seeded', 'C*-*'))):
+        m = json.load(open(os.path.join(d, 'meta.json')))
+        pid = os.path.basename(d).split('-')[0]
+        c = m.get('confirmation', {})
+        seeds.setdefault(pid, []).append(c.get('check_rc') == 1)
+    rows = ['| id | thm | registered | correspondence (model run against the code) | oracle on the real code | known findings | seeds caught |',
+            '|---|---|---|---|---|---|---|']
+    for i in range(1, 21):
+        pid = 'C%02d' % i
+        src = open(os.path.join(V, 'coq', 'Properties', pid + '.v')).read()
+        n = len(re.findall(r'^\s*(?:Theorem|Lemma|Corollary|Example)\s', src, re.M))
+        sd = seeds.get(pid, [])
+        rows.append('| %s | %d | %s | %s | %s | %s | %d/%d |' % (
+            pid, n, 'yes' if pid in claimed else 'no (not_applicable: see MANIFEST)', CORR[pid], ORACLE[pid],
+            ', '.join(kf.get(pid, [])) or '-', sum(sd), len(sd)))
+    return '\n'.join(rows)
+
+
+def seed_table():
+    rows = []
+    for d in sorted(glob.glob(os.path.join(V, 'seeded', 'C*-*'))):
+        m = json.load(open(os.path.join(d, 'meta.json')))
+        c = m.get('confirmation', {})
+        tail = ' '.join(c.get('check_tail', [])[-2:]) if c.get('check_tail') else ''
+        how = 'failing input found' if 'VIOLATION' in tail and 'no-failing-input-found' not in tail else \
+            ('broken correspondence/obligation, no failing input' if 'VIOLATION' in tail else '')
+        first = m.get('first_run')
+        note = (' (missed at first: %s)' % first) if first else ''
+        rows.append('| %s | %s | %s | %s |' % (os.path.basename(d), m.get('summary', '').replace('|', '/').replace('\n', ' ')[:170],
+                                            m.get('needs', '').replace('|', '/').replace('\n', ' ')[:150],
+                                            (('caught: ' + how) if c.get('check_rc') == 1 else 'NOT caught' if c.get('check_rc') == 0 else '?') + note))
+    return '| seed | change | needs | quick check of its property |\n|---|---|---|---|\n' + '\n'.join(rows)
+
+
+def main():
+    tmpl = open(os.path.join(V, 'harness', 'appendixE.tmpl.md')).read()
+    text = tmpl.replace('@@PROPTABLE@@', prop_table()).replace('@@SEEDTABLE@@', seed_table())
+    if '--write' in sys.argv:
+        p = os.path.join(V, 'DESIGN.md')
+        s = open(p).read()
+        marker = '\n---------------------------------------------------------------------------\n\n## Appendix E — as built'
+        i = s.find(marker)
+        if i >= 0:
+            s = s[:i]
+        s = s.rstrip('\n') + '\n' + text
+        open(p, 'w').write(s)
+        print('DESIGN.md updated (%d lines)' % s.count('\n'))
+    else:
+        print(text)
+
+
+if __name__ == '__main__':
+    main()
